@@ -436,9 +436,10 @@ type (
 	ECall   struct{ Fn string; Args []Expr }
 	EOld    struct{ X Expr }
 	EQuant  struct {
-		Forall bool
-		Vars   []SpecParam
-		Body   Expr
+		Forall   bool
+		Vars     []SpecParam
+		Triggers []Expr
+		Body     Expr
 	}
 )
 
@@ -480,7 +481,7 @@ func lex(src string) ([]tok, error) {
 			ts = append(ts, tok{"str", src[i+1 : j]})
 			i = j + 1
 		default:
-			ops := []string{"<==>", "==>", "::", "==", "!=", "<=", ">=", "&&", "||", "->", "<", ">", "+", "-", "*", "/", "%", "!", "(", ")", "[", "]", ".", ",", ":"}
+			ops := []string{"<==>", "==>", "::", "==", "!=", "<=", ">=", "&&", "||", "->", "<", ">", "+", "-", "*", "/", "%", "!", "(", ")", "[", "]", "{", "}", ".", ",", ":"}
 			matched := false
 			for _, op := range ops {
 				if strings.HasPrefix(src[i:], op) {
@@ -558,6 +559,25 @@ func (p *parser) parseQuant() (Expr, error) {
 			}
 			break
 		}
+		var trigs []Expr
+		if p.isOp("{") {
+			p.next()
+			for {
+				te, err := p.parseAdd()
+				if err != nil {
+					return nil, err
+				}
+				trigs = append(trigs, te)
+				if p.isOp(",") {
+					p.next()
+					continue
+				}
+				break
+			}
+			if err := p.expectOp("}"); err != nil {
+				return nil, err
+			}
+		}
 		if err := p.expectOp("::"); err != nil {
 			return nil, err
 		}
@@ -565,7 +585,7 @@ func (p *parser) parseQuant() (Expr, error) {
 		if err != nil {
 			return nil, err
 		}
-		return &EQuant{Forall: t.s == "forall", Vars: vars, Body: body}, nil
+		return &EQuant{Forall: t.s == "forall", Vars: vars, Triggers: trigs, Body: body}, nil
 	}
 	return p.parseIff()
 }
